@@ -197,7 +197,8 @@ struct Runner {
             for (size_t k = 0; k < n; ++k) { int64_t v = nextVal++; new (&raw[k]) T(E::make(v)); x.m.push_back(normv<T>(v)); }
             x.known.assign(n, 1);
             x.a.reset(new Arr(raw, n, false));
-            if (n && x.a->array() != raw) fail("model-mismatch", op, "Array(ptr, n, false) did not adopt the pointer");
+            // (whether the block itself is adopted is not judged: the statement speaks of the values; a block that is neither
+            // adopted nor released shows up in the lifetime registry and under LeakSanitizer)
         } else if (how < 62) {
             size_t k = n > 4 ? n % 5 : n;
             note("construct-ilist");
@@ -311,7 +312,7 @@ struct Runner {
         const T *before = s[from].a->array();
         size_t n = s[from].m.size();
         s[to].a.reset(new Arr(std::move(*s[from].a)));
-        if (n && s[to].a->array() != before) fail("model-mismatch", op, "move construction did not transfer the storage");
+        (void) before; (void) n;   // "moves transfer the contents": the contents are compared, the address of the storage is not judged
         s[to].m = std::move(s[from].m);
         s[to].known = std::move(s[from].known);
         s[to].movedFrom = false;
